@@ -467,6 +467,11 @@ func cmdSearch3(seed uint64, n int) {
 	lj, ld := largeSearchJobs(r, n)
 	jobs = append(jobs, lj...)
 	descs = append(descs, ld...)
+	// the leaf pairs: every generated trun / senc / mdat box (all trun flag combinations, lying sizes, truncations, counts)
+	for _, d := range genT3Inputs(r, n/40) {
+		jobs = append(jobs, job{kind: "X3", cfg: "-", data: d})
+		descs = append(descs, "leafpair:"+hx.Hex(d))
+	}
 	seen := map[string]bool{}
 	perBox := n / 300
 	if perBox < 5 {
